@@ -1,0 +1,52 @@
+//! Verification hooks (feature `crux_verif`, off by default): named schedule points.
+//!
+//! A schedule point is a place in the runtime where no lock is held and another thread could
+//! run. With no controller installed a point does nothing. A verification harness installs a
+//! controller to run the steps of a second (real or simulated) thread at a chosen point, which
+//! makes the interleaving an input of the harness. Nothing here changes behaviour.
+
+/// The named schedule points.
+#[derive(Clone, Copy, Debug, PartialEq, Eq)]
+pub enum Point {
+    /// `Command::run_task`: the task's future has just returned from `poll`
+    CommandTaskPolled,
+    /// `Command::run_task`: the executor has released its own handle on the poll's waker
+    CommandWakerReleased,
+    /// `Command::run_task`: between the two reads the eviction decision is based on
+    CommandEvictionMid,
+    /// `Command::run_until_settled`: a task has just been run, before the next id is taken
+    CommandTaskDone,
+    /// `<Command as Stream>::poll_next`: the host's waker has been registered, tasks not yet run
+    CommandStreamRegistered,
+    /// `<Command as Stream>::poll_next`: tasks have settled, outputs not yet inspected
+    CommandStreamSettled,
+    /// `CommandWaker::wake_by_ref`: the task id has been queued, `woken` not yet set
+    WakerIdQueued,
+    /// `CommandWaker::wake_by_ref`: `woken` is set, the parent not yet woken
+    WakerFlagSet,
+    /// `QueuingExecutor::run_task`: the future was taken out of its slot and the lock released
+    ExecutorTaskTaken,
+    /// `QueuingExecutor::run_task`: the future has returned from `poll`, slot not yet updated
+    ExecutorTaskPolled,
+    /// `QueuingExecutor::run_all`: a task has just been run, before the next id is taken
+    ExecutorTaskDone,
+}
+
+fn no_controller(_point: Point) {}
+
+static mut CONTROLLER: fn(Point) = no_controller;
+
+/// Install (or, with `None`, remove) the controller. Must not be called while another thread
+/// may reach a schedule point.
+pub fn install(controller: Option<fn(Point)>) {
+    unsafe {
+        CONTROLLER = controller.unwrap_or(no_controller);
+    }
+}
+
+/// Reach a schedule point.
+#[inline]
+pub(crate) fn point(point: Point) {
+    let controller = unsafe { CONTROLLER };
+    controller(point);
+}
